@@ -24,3 +24,5 @@ def run(ctx):
         alac.run(ctx, "C07", 96 if q else 960)
         from .. import small4         # SDS whole-file sessions: header updates flush and re-seek over the partly filled packet (lean/SfModel/SdsFile.lean)
         small4.run_sds(ctx, found=bool(ctx.violations))
+        from .. import adpcmenc       # IMA (WAV / W64 / AIFF layouts) and MS ADPCM encoders + write paths (lean/SfModel/AdpcmEnc.lean, AdpcmFile.lean)
+        adpcmenc.run(ctx, "C07", 120 if q else 1200)
